@@ -84,188 +84,6 @@ Lemma glob_set_global st v : glob (raw_set_in st globals_id (VStr (fmt_var v)) (
 Proof. unfold glob. rewrite get_table_raw_set_in, raw_get_set_str by reflexivity. rewrite String.eqb_refl. reflexivity. Qed.
 
 
-(* ------------------------------------------------------------------ function definitions at chunk level *)
-
-(* the world after the definition of the function d *)
-Definition world_add (W : world) (d : fdyn) : world :=
-  mkWorld (fun c x => w_IS W c x \/ (c = fd_cf d /\ x = SyltSem.SClos (fd_ci d)))
-          (fun p lv => w_IL W p lv \/ (p = fd_pf d /\ lv = VFun (fd_fid d)))
-          (d :: w_funs W).
-
-Section Sim.
-Variable pv : N.
-Variable sv : N.
-Variable bound : N.
-Variable u : counts.
-
-Notation ctx_ok := (ctx_ok bound).
-
-(* the Lua state after `local function V<fv>(ps) b end` *)
-Definition lua_def_state (stL : state) (E1 : env) (ps : list N) (b : block) : state :=
-  set_cell (snd (alloc_closure (snd (alloc_cell stL VNil)) (mkClosure E1 (map fmt_var ps) b))) (s_ncell stL) (VFun (s_nclo stL)).
-
-Lemma lua_def_old stL E1 ps b p : (p < s_ncell stL)%positive -> get_cell (lua_def_state stL E1 ps b) p = get_cell stL p.
-Proof.
-  intros Hp. unfold lua_def_state. rewrite get_cell_set_other by lia.
-  change (get_cell (snd (alloc_cell stL VNil)) p = get_cell stL p). apply get_cell_alloc_old. exact Hp.
-Qed.
-
-Lemma linv_lua_def stL E1 ps b : linv stL -> linv (lua_def_state stL E1 ps b).
-Proof.
-  intros Hli. apply linv_set_cell. destruct Hli as [Hd Hg [Hc] Hn]. constructor.
-  - exact Hd.
-  - exact Hg.
-  - constructor. unfold alloc_closure, alloc_cell. cbn [snd s_clos s_nclo]. rewrite pget_pset_other; [exact Hc | lia].
-  - unfold alloc_closure, alloc_cell. cbn [snd s_nclo]. lia.
-Qed.
-
-(* `local function V<fv>(ps) <body> end` for a top-level function: it joins the callable functions and the
-   world; the description d records its code, its cells and its closure environments *)
-Lemma rel_define_function fl W sc e st E stL fv ps body g k scout bc c c2 l :
-  rel pv sv bound u fl W sc e st E stL ->
-  (forall d, In d (w_funs W) -> In (fd_var d) (fnames fl)) ->
-  fresh_id pv sv bound fl sc fv = true ->
-  params_ok pv sv bound ((fv, length ps) :: fl) sc ps = true ->
-  frag_stmts pv sv bound ((fv, length ps) :: fl) k (rev ps ++ sc) body = Some scout ->
-  lower_fbody (statement g) (expression g) body 0 c = Ok (bc, c2) ->
-  ucovers u bc -> bound <= c -> lut_ok bound l c c2 -> E_free E c c2 ->
-  let E1 := sset (fmt_var fv) (s_ncell stL) E in
-  let d := mkFdyn fv ps body sc ((fv, length ps) :: fl) g k scout bc c c2 l
-                  (length (SyltSem.cells st)) (length (SyltSem.clos st)) (def_env fv e st)
-                  (s_ncell stL) (s_nclo stL) E1 in
-  rel pv sv bound u ((fv, length ps) :: fl) (world_add W d) sc (def_env fv e st) (def_state fv ps body e st)
-      E1 (lua_def_state stL E1 ps (fbody u d)) /\
-  (forall d', In d' (w_funs (world_add W d)) -> In (fd_var d') (fnames ((fv, length ps) :: fl))).
-Proof.
-  intros Hrel Hall Hfresh Hpok Hfb Hlow Hub Hbc Hlut HEf E1 d.
-  pose proof Hrel as [Hv Hb Hi Hp Hpb HpE HpG Hwf Ht Hli HW].
-  destruct (fresh_id_inv _ _ _ _ _ _ Hfresh) as (Hnin & Hnpv & Hnsv & Hfvb).
-  pose proof (fresh_id_fl _ _ _ _ _ _ Hfresh) as Hnfl.
-  set (fl' := (fv, length ps) :: fl) in *.
-  assert (Hold : forall p, (p < s_ncell stL)%positive -> get_cell (lua_def_state stL E1 ps (fbody u d)) p = get_cell stL p)
-    by (intros p Hp'; apply lua_def_old; exact Hp').
-  assert (Hwf1 : wfenv E1 (lua_def_state stL E1 ps (fbody u d))).
-  { pose proof (wfenv_local E stL fv VNil Hwf) as [HV Hin Ha]. constructor; [exact HV | exact Hin |].
-    intros x p H. specialize (Ha x p H). cbn in *. exact Ha. }
-  assert (Hcl : forall v c0, In v sc -> SyltSem.lookup e v = Some c0 -> (c0 < length (SyltSem.cells st))%nat).
-  { intros v c0 Hvin Hlk. destruct (Hv v Hvin) as (c1 & x & p & H1 & H2 & _). rewrite Hlk in H1. inversion H1; subst. apply nth_error_Some. congruence. }
-  (* the static facts about the new function *)
-  assert (Hstatic : fstatic pv sv bound u d).
-  { constructor; cbn [d fd_var fd_params fd_body fd_sc fd_fl fd_g fd_k fd_scout fd_code fd_c fd_c' fd_lut fd_ef fd_Ef].
-    - exact Hlow.
-    - exact Hfb.
-    - exact Hpok.
-    - left. reflexivity.
-    - splits; assumption.
-    - exact Hb.
-    - intros g0 [<-|Hg]; [split; assumption|]. unfold fnames in Hg. apply in_map_iff in Hg as ((f & ar) & <- & Hf).
-      destruct (wi_cover _ _ _ _ _ _ _ _ _ _ _ HW f ar Hf) as (d0 & Hd0 & <- & _).
-      destruct (wi_fun _ _ _ _ _ _ _ _ _ _ _ HW d0 Hd0) as (Hs0 & _ & _). destruct (fs_var _ _ _ _ _ Hs0) as (A & B & _). split; assumption.
-    - exact Hub.
-    - exact Hbc.
-    - exact Hlut.
-    - intros t0 Ht0. unfold E1. rewrite sget_sset_var by lia. apply HEf. exact Ht0.
-    - unfold E1. rewrite sget_sset_var by (intros Heq; apply Hnpv; symmetry; exact Heq). exact HpE.
-    - apply (wf_V _ _ Hwf1).
-    - apply (wf_inj _ _ Hwf1).
-    - destruct Hp as (cp & Hlkp & _). exists cp. unfold def_env. cbn [SyltSem.lookup]. destruct (N.eqb_spec fv pv); [congruence | exact Hlkp]. }
-  (* how the old functions see the new environments *)
-  assert (HvisS : forall d0, In d0 (w_funs W) -> fvisS pv (def_env fv e st) d0).
-  { intros d0 Hd0. pose proof (Hall d0 Hd0) as Hvis0. destruct (wi_vsc _ _ _ _ _ _ _ _ _ _ _ HW d0 Hd0 Hvis0) as [Hisc Hifl].
-    apply (fvisS_same pv e _ d0 (wi_visS _ _ _ _ _ _ _ _ _ _ _ HW d0 Hd0 Hvis0)).
-    - unfold def_env. cbn [SyltSem.lookup]. destruct (N.eqb_spec fv (fd_var d0)) as [Heq|]; [|reflexivity]. exfalso. apply Hnfl. rewrite Heq. exact Hvis0.
-    - intros g0 Hg. unfold def_env. cbn [SyltSem.lookup]. destruct (N.eqb_spec fv g0) as [Heq|]; [|reflexivity]. exfalso. subst g0.
-      destruct Hg as [[Hg|Hg]|Hg]; [apply Hnin, Hisc, Hg | apply Hnfl; unfold fnames in *; apply (incl_map fst Hifl); exact Hg | apply Hnpv; exact Hg]. }
-  assert (HvisL : forall d0, In d0 (w_funs W) -> fvisL E1 d0).
-  { intros d0 Hd0. pose proof (Hall d0 Hd0) as Hvis0. destruct (wi_vsc _ _ _ _ _ _ _ _ _ _ _ HW d0 Hd0 Hvis0) as [Hisc Hifl].
-    apply (fvisL_same E _ d0 (wi_visL _ _ _ _ _ _ _ _ _ _ _ HW d0 Hd0 Hvis0)).
-    - apply sget_sset_var. intros Heq. apply Hnfl. rewrite <- Heq. exact Hvis0.
-    - intros g0 [Hg|Hg]; apply sget_sset_var; intros Heq; subst g0;
-        [apply Hnin, Hisc, Hg | apply Hnfl; unfold fnames in *; apply (incl_map fst Hifl); exact Hg]. }
-  assert (HselfS : fvisS pv (def_env fv e st) d).
-  { constructor; cbn [d fd_var fd_cf fd_ef]; [unfold def_env; cbn [SyltSem.lookup]; rewrite N.eqb_refl; reflexivity | reflexivity]. }
-  assert (HselfL : fvisL E1 d).
-  { constructor; cbn [d fd_var fd_pf fd_Ef]; [apply sget_sset_same | reflexivity]. }
-  split.
-  2: { intros d' [<-|Hd']; [left; reflexivity | right; apply Hall; exact Hd']. }
-  constructor.
-  - intros w Hw. destruct (Hv w Hw) as (cc & x & p & H1 & H2 & H3 & H4).
-    assert (Hne : w <> fv) by (intros ->; contradiction).
-    exists cc, x, p. unfold def_env, def_state. cbn [SyltSem.lookup SyltSem.cells]. destruct (N.eqb_spec fv w); [congruence|].
-    splits; [exact H1 | apply nth_error_app_old; exact H2 | unfold E1; rewrite sget_sset_var by exact Hne; exact H3 |].
-    rewrite Hold; [exact H4 | eapply wf_alloc; eassumption].
-  - exact Hb.
-  - intros v1 v2 cc H1 H2. unfold def_env. cbn [SyltSem.lookup].
-    destruct (N.eqb_spec fv v1) as [->|]; [contradiction|]. destruct (N.eqb_spec fv v2) as [->|]; [contradiction|].
-    apply Hi; assumption.
-  - destruct Hp as (cp & Hlkp & Hnthp & Hdist).
-    exists cp. unfold def_env, def_state. cbn [SyltSem.lookup SyltSem.cells]. destruct (N.eqb_spec fv pv); [congruence|].
-    splits; [exact Hlkp | apply nth_error_app_old; exact Hnthp |].
-    intros w Hw. destruct (N.eqb_spec fv w) as [->|]; [contradiction|]. apply Hdist. exact Hw.
-  - exact Hpb.
-  - unfold E1. rewrite sget_sset_var by (intros Heq; apply Hnpv; symmetry; exact Heq). exact HpE.
-  - eapply glob_frame; [|exact HpG]. reflexivity.
-  - exact Hwf1.
-  - exact Ht.
-  - apply linv_lua_def. exact Hli.
-  - (* the world *)
-    constructor; cbn [world_add w_IS w_IL w_funs].
-    + intros c0 x [Hx|[-> ->]]; unfold def_state; cbn [SyltSem.cells].
-      * pose proof (wi_IS _ _ _ _ _ _ _ _ _ _ _ HW c0 x Hx). rewrite nth_error_app1; [assumption | apply nth_error_Some; congruence].
-      * cbn [d fd_cf fd_ci]. apply nth_error_app_new.
-    + intros p lv [Hq|[-> ->]].
-      * destruct (wi_IL _ _ _ _ _ _ _ _ _ _ _ HW p lv Hq) as [Ha Hlt]. split; [rewrite Hold by exact Hlt; exact Ha|].
-        unfold lua_def_state, set_cell, alloc_closure, alloc_cell. cbn [snd s_ncell]. lia.
-      * cbn [d fd_pf fd_fid]. split; [unfold lua_def_state; apply get_cell_set_same|].
-        unfold lua_def_state, set_cell, alloc_closure, alloc_cell. cbn [snd s_ncell]. lia.
-    + intros d0 [<-|Hd0].
-      * cbn [d fd_ci fd_params fd_body fd_ef fd_fid fd_Ef]. splits.
-        -- unfold def_state. cbn [SyltSem.clos]. apply nth_error_app_new.
-        -- unfold lua_def_state, set_cell, alloc_closure, alloc_cell. cbn [snd s_clos s_nclo]. apply pget_pset_same.
-        -- apply (wf_alloc _ _ Hwf1).
-        -- unfold lua_def_state, set_cell, alloc_closure, alloc_cell. cbn [snd s_nclo]. lia.
-        -- unfold def_state. cbn [SyltSem.clos]. rewrite app_length. cbn [length]. lia.
-      * destruct (wi_clos _ _ _ _ _ _ _ _ _ _ _ HW d0 Hd0) as (A & B & C & D & F).
-        splits.
-        -- unfold def_state. cbn [SyltSem.clos]. rewrite nth_error_app1 by exact F. exact A.
-        -- unfold lua_def_state, set_cell, alloc_closure, alloc_cell. cbn [snd s_clos s_nclo]. rewrite pget_pset_other by lia. exact B.
-        -- intros x p Hx. specialize (C x p Hx). unfold lua_def_state, set_cell, alloc_closure, alloc_cell. cbn [snd s_ncell]. lia.
-        -- unfold lua_def_state, set_cell, alloc_closure, alloc_cell. cbn [snd s_nclo]. lia.
-        -- unfold def_state. cbn [SyltSem.clos]. rewrite app_length. lia.
-    + intros d0 [<-|Hd0].
-      * splits; [exact Hstatic | right; split; reflexivity | right; split; reflexivity].
-      * destruct (wi_fun _ _ _ _ _ _ _ _ _ _ _ HW d0 Hd0) as (A & B & C). splits; [exact A | left; exact B | left; exact C].
-    + intros d1 d2 [<-|Hd1] [<-|Hd2] Hvis12.
-      * splits; [exact HselfS | exact HselfL | apply incl_refl | apply incl_refl].
-      * cbn [d fd_fl fd_ef fd_Ef fd_sc] in *. pose proof (Hall d2 Hd2) as Hvis2.
-        destruct (wi_vsc _ _ _ _ _ _ _ _ _ _ _ HW d2 Hd2 Hvis2) as [Hisc Hifl].
-        splits; [apply HvisS; exact Hd2 | apply HvisL; exact Hd2 | exact Hisc | apply incl_tl; exact Hifl].
-      * exfalso. pose proof (Hall d1 Hd1) as Hvis1. destruct (wi_vsc _ _ _ _ _ _ _ _ _ _ _ HW d1 Hd1 Hvis1) as [_ Hifl].
-        apply Hnfl. cbn [d fd_var] in Hvis12. unfold fnames in *. apply (incl_map fst Hifl). exact Hvis12.
-      * apply (wi_inter _ _ _ _ _ _ _ _ _ _ _ HW d1 d2 Hd1 Hd2 Hvis12).
-    + intros f ar [Heq|Hf].
-      * inversion Heq; subst f ar. exists d. splits; [left; reflexivity | reflexivity | reflexivity].
-      * destruct (wi_cover _ _ _ _ _ _ _ _ _ _ _ HW f ar Hf) as (d0 & A & B & C). exists d0. splits; [right; exact A | exact B | exact C].
-    + intros d1 d2 [<-|Hd1] [<-|Hd2] Heq; [reflexivity | | |].
-      * exfalso. apply Hnfl. cbn [d fd_var] in Heq. rewrite Heq. apply Hall. exact Hd2.
-      * exfalso. apply Hnfl. cbn [d fd_var] in Heq. rewrite <- Heq. apply Hall. exact Hd1.
-      * apply (wi_uniq _ _ _ _ _ _ _ _ _ _ _ HW d1 d2 Hd1 Hd2 Heq).
-    + intros v c0 x Hvin Hlk [Hx|[-> _]]; unfold def_env in Hlk; cbn [SyltSem.lookup] in Hlk;
-        (destruct (N.eqb_spec fv v) as [->|]; [contradiction|]).
-      * exact (wi_scS _ _ _ _ _ _ _ _ _ _ _ HW v c0 x Hvin Hlk Hx).
-      * cbn [d fd_cf] in Hlk. specialize (Hcl v _ Hvin Hlk). lia.
-    + intros v Hvin [Heq|Hf]; [cbn [fst] in Heq; subst v; contradiction | exact (wi_scfl _ _ _ _ _ _ _ _ _ _ _ HW v Hvin Hf)].
-    + intros v p lv Hvin Hq [Hx|[-> _]]; unfold E1 in Hq; rewrite sget_sset_var in Hq by (intros ->; contradiction).
-      * exact (wi_lprot _ _ _ _ _ _ _ _ _ _ _ HW v p lv Hvin Hq Hx).
-      * cbn [d fd_pf] in Hq. pose proof (wf_alloc _ _ Hwf _ _ Hq). lia.
-    + intros d0 [<-|Hd0] _; [exact HselfS | apply HvisS; exact Hd0].
-    + intros d0 [<-|Hd0] _; [exact HselfL | apply HvisL; exact Hd0].
-    + intros d0 [<-|Hd0] _.
-      * cbn [d fd_sc fd_fl]. split; apply incl_refl.
-      * destruct (wi_vsc _ _ _ _ _ _ _ _ _ _ _ HW d0 Hd0 (Hall d0 Hd0)) as [A B]. split; [exact A | apply incl_tl; exact B].
-Qed.
-
-End Sim.
 
 (* ------------------------------------------------------------------ the whole program *)
 
@@ -289,12 +107,6 @@ Proof. intros x. unfold sget. destruct (pos_of_string x); reflexivity. Qed.
 
 (* ------------------------------------------------------------------ the outer statements *)
 
-Lemma definition_fun f var name params ret body pure sp ctx :
-  definition (S f) var (EFunction name params ret body pure sp) ctx =
-  (_ <- fresh ;; bc <- lower_fbody (statement f) (expression f) body ctx ;;
-   IR.ret (IFunction var (param_ids params) :: bc ++ [IEnd])).
-Proof. reflexivity. Qed.
-
 Lemma compile_def n s : is_def s = true -> compile_stmt n s = statement (S n) s 0.
 Proof. destruct s; try discriminate. intros _. reflexivity. Qed.
 
@@ -317,15 +129,6 @@ Variable bound : N.
 Variable u : counts.
 
 Notation ctx_ok := (ctx_ok bound).
-
-(* `local function V<f>(ps) <body> end` *)
-Lemma cshape_fun l f ps cb bb l1 c c' :
-  cshape u l cb bb l1 (c + 1) c' -> alut_get l f = None ->
-  cshape u l (IFunction f ps :: cb ++ [IEnd]) [SLocalFun (fmt_var f) (map fmt_var ps) bb] l1 c c'.
-Proof.
-  intros (H & Hc & Hf & _) Hlf. split; [|split; [lia | split; [eapply lut_frame_widen; [exact Hf | lia | lia] | repeat constructor]]].
-  pose proof (Em_fun u l f ps cb bb l1 [] [] l1 H (Em_nil u l1)) as He. unfold aname in He. rewrite Hlf in He. exact He.
-Qed.
 
 (* an outer definition: what it adds to the scope or to the functions is new *)
 Lemma frag_stmt_scope fl k sc s sc' :
@@ -370,9 +173,9 @@ Proof.
     clear Hplain.
     match type of Hf with (if ?b then _ else _) = _ => destruct b eqn:Hc; [|discriminate Hf] end.
     apply andb_prop in Hc as [Hc Hfb]. apply andb_prop in Hc as [Hfr Hpok].
-    destruct (frag_stmts pv sv bound ((var, length (param_ids params)) :: fl) k (rev (param_ids params) ++ sc) body) as [scout|] eqn:Hfbody; [|discriminate Hfb].
+    destruct (frag_body pv sv bound k ((var, length (param_ids params)) :: fl) (rev (param_ids params) ++ sc) body) as [scout|] eqn:Hfbody; [|discriminate Hfb].
     cbn [compile_stmt] in Hy. rewrite definition_fun in Hy. mon Hy. fresh_all.
-    destruct (L_fbody pv sv bound u _ n k body 0 (c + 1) a0 c1 _ scout l Hm0 Hfbody) as (bb & l1 & Hsb).
+    destruct (proj2 (L_body_all pv sv bound u n) body k 0 (c + 1) a0 c1 _ _ scout l Hm0 Hfbody Hl ltac:(lia)) as (bb & l1 & Hsb & _).
     pose proof Hsb as (_ & Hcc1 & Hfr1 & _).
     destruct (fresh_id_inv _ _ _ _ _ _ Hfr) as (_ & _ & _ & Hvb).
     assert (Hl1 : forall v, v < bound -> alut_get l1 v = None) by (intros v Hv; rewrite Hfr1 by lia; apply Hl; exact Hv).
@@ -461,21 +264,21 @@ Proof.
     match type of Hf with (if ?b then _ else _) = _ => destruct b eqn:Hc; [|discriminate Hf] end.
     apply andb_prop in Hc as [Hc Hfb]. apply andb_prop in Hc as [Hfr Hpok].
     set (ps := param_ids params) in *. set (fl' := (var, length ps) :: fl) in *.
-    destruct (frag_stmts pv sv bound fl' k (rev ps ++ sc) body) as [scout|] eqn:Hfbody; [|discriminate Hfb].
+    destruct (frag_body pv sv bound k fl' (rev ps ++ sc) body) as [scout|] eqn:Hfbody; [|discriminate Hfb].
     cbn [compile_stmt] in Hy. rewrite definition_fun in Hy. fold ps in Hy. mon Hy. fresh_all. rename a0 into bc.
     rewrite exec_def_fun in Hev. fold ps in Hev.
     apply ucovers_cons in Huy as [_ Huy]. apply ucovers_app in Huy as [Hubc _].
-    destruct (L_fbody pv sv bound u fl' (S n') k body 0 (c + 1) bc c1 _ scout l Hm0 Hfbody) as (bb & l1 & Hsb).
+    destruct (proj2 (L_body_all pv sv bound u (S n')) body k 0 (c + 1) bc c1 _ fl' scout l Hm0 Hfbody Hlb ltac:(lia)) as (bb & l1 & Hsb & _).
     pose proof Hsb as (Hemb & Hcc1 & Hfr1 & Hnlb).
     destruct (fresh_id_inv _ _ _ _ _ _ Hfr) as (Hnin & Hnpv & Hnsv & Hvb).
     destruct (L_items (S n') k items c1 ys c' sc fl' scf flf l1 Hys Hf) as (_ & _ & (_ & Hc1c' & _) & _);
       [intros v Hv; rewrite Hfr1 by lia; apply Hlb; exact Hv | lia |].
     assert (Hlut1 : lut_ok bound l (c + 1) c1) by (eapply lut_ok_sub; [exact Hlut | lia | lia]).
     assert (HEf1 : E_free E (c + 1) c1) by (eapply E_free_sub; [exact HEf | lia | lia]).
-    destruct (rel_define_function pv sv bound u fl W sc e st E stL var ps body (S n') k scout bc (c + 1) c1 l
+    destruct (rel_define_function pv sv bound u fl W sc e st E stL var ps body (S n') k scout bc 0 (c + 1) c1 l
                 Hrel Hall Hfr Hpok Hfbody Hm0 Hubc ltac:(lia) Hlut1 HEf1) as (Hrel1 & Hall1).
     set (E1 := sset (fmt_var var) (s_ncell stL) E) in *.
-    set (d := mkFdyn var ps body sc fl' (S n') k scout bc (c + 1) c1 l (length (SyltSem.cells st)) (length (SyltSem.clos st))
+    set (d := mkFdyn var ps body sc fl' (S n') k scout bc 0 (c + 1) c1 l (length (SyltSem.cells st)) (length (SyltSem.clos st))
                      (def_env var e st) (s_ncell stL) (s_nclo stL) E1) in *.
     assert (Hbb : bb = fbody u d) by (unfold fbody; cbn [d fd_lut fd_code]; apply (Emits_block_fun u l bc bb l1 Hemb)).
     assert (Hx1 : Exec E (SLocalFun (fmt_var var) (map fmt_var ps) bb) stL (ROk (E1, SigNormal) (lua_def_state stL E1 ps bb)))
@@ -562,7 +365,7 @@ Definition lua_result (st0 : state) (code : list ir) (res : SyltSem.run_result) 
     | _ => exists v, r = RErr v st
     end.
 
-Definition world0 : world := mkWorld (fun _ _ => False) (fun _ _ => False) [].
+Definition world0 : world := mkWorld (fun _ _ => False) (fun _ _ => False) (fun _ _ => False) (fun _ _ => False) [].
 
 Lemma program_sim k r code n res st0 :
   linv st0 -> s_out st0 = [] -> (forall v, raw_get (get_table st0 globals_id) (VStr (fmt_var v)) = VNil) ->
@@ -687,7 +490,7 @@ Proof.
   assert (Hinta : interesting ra).
   { destruct ra as [v|o|cc]; [exact I | | destruct cc; exact I]. cbn in Hgood. destruct o; try destruct Hgood; try exact I.
     exfalso. pose proof (SemSane.s_apply _ (SemSane.sane_all (S (S f'))) (SyltSem.SClos (fd_ci d)) [] stg) as Hq. rewrite Hap in Hq. exact Hq. }
-  pose proof (proj2 (proj2 (proj2 (proj2 (proj2 (P_all pv bound bound u (S (S f')) flg Wg))))) d [] [] scg eg stg Eg stLg ra sta
+  pose proof (proj2 (proj2 (proj2 (proj2 (proj2 (proj2 (P_all pv bound bound u (S (S f')) flg Wg)))))) d [] [] scg eg stg Eg stLg ra sta
                     Hrelg Hd Hvis (Forall2_nil _) Hap Hinta) as Hcall.
   assert (Hev_s : Eval Eg (EVar (fmt_var s)) stLg (ROk (VFun (fd_fid d)) stLg)).
   { rewrite <- Hcell. apply Eval_local. exact HlkL. }
